@@ -7,6 +7,7 @@ oracle_c16 — line protocol (one world per script; the first line (re)initialis
   `conn`                              → `r=acc<k>` | `r=rej` | `r=lost` (accept loop has stopped), then the world
   `burst <n>` (1..8 attempts back to back) → `r=acc<a>,rej<r>[,lost<l>]`, then the world
   `send <k> <hex|->`                  → `r=ok` | `r=closed`, then the world
+  `sendn <k> <n>` (n one-byte Sends, 1..400) → `r=ok<accepted>`, then the world
   `close|pclose|drain|hold|pdata|rerr|rto|herr|rdl|hpanic|hpanicnil|werr|wto|wdl|start|cerr|uh|xpanic|xblock <k>` → `r=ok`, then the world
   `wpart|wtemp <k> <n>` (partial write of n bytes, then timeout | temporary error) → `r=ok`, then the world
   `setv <k> str|kz|nilkz` (Session.Set) → `r=ok`; `soak <n>` (n surplus connections in a row, server full) → `r=rej<n>`, then the world
@@ -152,6 +153,16 @@ def step (st : OState) (line : String) : OState × String :=
       match parseHex h with
       | none => (st, "bad-op")
       | some bs => onSess st k fun s => (event cfg s (.send bs), if sendAccepted s then "ok" else "closed")
+    | "sendn", [k, n] =>
+      -- n one-byte Sends in a row (payload i: the byte i mod 250 + 1); result: how many were accepted
+      match n.toNat? with
+      | none => (st, "bad-op")
+      | some n =>
+        if n = 0 ∨ n > 400 ∨ st.mode = .echo then (st, "bad-op") else
+        onSess st k fun s =>
+          let r := (List.range n).foldl (fun (acc : Sess × Nat) i =>
+            (event cfg acc.1 (.send [i % 250 + 1]), if sendAccepted acc.1 then acc.2 + 1 else acc.2)) (s, 0)
+          (r.1, s!"ok{r.2}")
     | "close", [k] => onSess st k (envs [.close])
     | "pclose", [k] => onSess st k (envs [.peerClose])
     | "drain", [k] => onSess st k (envs [.peerDrain])
